@@ -9,6 +9,7 @@ From AGH Require Import Model.ClientIDCache Proofs.ClientIDCache Model.ClientIDR
 From AGH Require Import Model.TLSSettings Proofs.TLSSettings.
 From AGH Require Import Model.GoLower Proofs.GoLower Model.CertPrepare Proofs.CertPrepare.
 From AGH Require Import Model.TLSGlue Proofs.TLSGlue Model.DoHTarget Proofs.DoHTarget.
+From AGH Require Import Model.ClientIDKey Proofs.ClientIDKey.
 Import ListNotations.
 
 (** A returned non-empty ClientID: the protocol is DoH, DoT or DoQ; the id is a
@@ -694,3 +695,56 @@ Theorem C16_decoding_twice_invisible : forall D,
   from_doh_path_again D = from_doh_path D.
 Proof. exact decoding_twice_invisible. Qed.
 Print Assumptions C16_decoding_twice_invisible.
+
+(** * Round 8: the key of the hand-over cache (Model/ClientIDKey.v).  The
+    hand-over is exact as long as the key function is injective on the
+    RequestIDs in play. *)
+
+Theorem C16_handover_exact_keyed : forall cf kf evs1 evs2 rid cid,
+  fits cf cid ->
+  (forall e, In e (evs1 ++ evs2) -> ev_rid e <> rid) ->
+  (forall e, In e (evs1 ++ evs2) -> kf (ev_rid e) <> kf rid) ->
+  (length evs2 < cc_max_count cf)%nat ->
+  seen_keyed cf kf (evs1 ++ EvBefore rid cid :: evs2) rid = cid.
+Proof. exact handover_exact_keyed. Qed.
+Print Assumptions C16_handover_exact_keyed.
+
+(** The code's key, 8 bytes big-endian, is injective on uint64 ... *)
+Theorem C16_key64_injective : forall r1 r2,
+  (r1 < 2 ^ 64)%N -> (r2 < 2 ^ 64)%N -> key64_bytes r1 = key64_bytes r2 -> r1 = r2.
+Proof. exact key64_injective. Qed.
+Print Assumptions C16_key64_injective.
+
+Theorem C16_key_bytes_value : forall rid,
+  be_value (key64_bytes rid) = key64 rid /\ be_value (key32_bytes rid) = key32 rid.
+Proof. intros rid. split; [exact (key64_bytes_value rid)|exact (key32_bytes_value rid)]. Qed.
+Print Assumptions C16_key_bytes_value.
+
+(** ... so with RequestIDs that are uint64 and the requests' own, whatever
+    their size, a request is processed with exactly its own extraction. *)
+Theorem C16_handover_exact_needs_injective_key : forall evs1 evs2 rid cid,
+  (rid < 2 ^ 64)%N -> (forall e, In e (evs1 ++ evs2) -> (ev_rid e < 2 ^ 64)%N) ->
+  (forall e, In e (evs1 ++ evs2) -> ev_rid e <> rid) ->
+  (length evs2 < 1024)%nat ->
+  seen_keyed server_cache_conf key64 (evs1 ++ EvBefore rid cid :: evs2) rid = cid.
+Proof. exact handover_exact_code. Qed.
+Print Assumptions C16_handover_exact_needs_injective_key.
+
+Theorem C16_plain_never_id_any_request_id : forall evs1 evs2 rid,
+  (rid < 2 ^ 64)%N -> (forall e, In e (evs1 ++ evs2) -> (ev_rid e < 2 ^ 64)%N) ->
+  (forall e, In e (evs1 ++ evs2) -> ev_rid e <> rid) ->
+  (length evs2 < 1024)%nat ->
+  seen_keyed server_cache_conf key64 (evs1 ++ EvBefore rid [] :: evs2) rid = [].
+Proof. exact plain_never_id_code. Qed.
+Print Assumptions C16_plain_never_id_any_request_id.
+
+(** A key of the low 32 bits: request k + 2^32, which extracted nothing, is
+    processed as the client of request k. *)
+Theorem C16_key32_refuted :
+  exists k evs1 rid,
+    (rid < 2 ^ 64)%N /\ (forall e, In e evs1 -> (ev_rid e < 2 ^ 64)%N /\ ev_rid e <> rid) /\
+    evs1 = [EvBefore k w_alice; EvInitial k] /\ rid = (k + 2 ^ 32)%N /\
+    seen_keyed server_cache_conf key32 (evs1 ++ [EvBefore rid []]) rid = w_alice /\
+    seen_keyed server_cache_conf key64 (evs1 ++ [EvBefore rid []]) rid = [].
+Proof. exact key32_refuted. Qed.
+Print Assumptions C16_key32_refuted.
